@@ -89,7 +89,11 @@ func c11eval(r *vx.R, c c11case) {
 			}
 		})
 		if kind == "fault" {
-			r.Violation(fmt.Sprintf("mem:%s:fault:%s-at-%s:len%%16=%d", c.Op, c.Arg, c.Side, len(in)%16*b2i(c.Arg == "pt" || c.Arg == "ct")), fmt.Sprintf("%s touched memory outside its arguments: %s (pt/ct %d bytes, aad %d, nonce %d, tag %d; %s placed at the %s of mapped memory)", c.Op, msg, len(in), c.AadLen, c.NLen, c.Tag, c.Arg, c.Side), c)
+			cls := "whole-blocks"
+			if c.PtLen%16 != 0 {
+				cls = "partial-block"
+			}
+			r.Violation(fmt.Sprintf("mem:%s:fault:%s-at-%s:%s", c.Op, c.Arg, c.Side, cls), fmt.Sprintf("%s touched memory outside its arguments: %s (pt/ct %d bytes, aad %d, nonce %d, tag %d; %s placed at the %s of mapped memory)", c.Op, msg, len(in), c.AadLen, c.NLen, c.Tag, c.Arg, c.Side), c)
 			return
 		}
 		if kind != "" {
